@@ -15,12 +15,23 @@ type Script struct {
 	Mode      string // "full" | "1" (one byte per call) | "split:<j>" (first call j bytes) | "eof:<L>" (finite stream of L bytes, last chunk delivered together with io.EOF) | "chunks:<k>"
 	FailAfter int    // -1: never; j >= 0: after j bytes have been delivered every further Read fails
 	FailWith  bool   // deliver the bytes that are still available together with the error
+	FailErr   string // "" = ErrScripted | "eof" = io.EOF | "unexpected-eof" = io.ErrUnexpectedEOF
+}
+
+func (s Script) failErr() error {
+	switch s.FailErr {
+	case "eof":
+		return io.EOF
+	case "unexpected-eof":
+		return io.ErrUnexpectedEOF
+	}
+	return ErrScripted
 }
 
 func (s Script) String() string {
 	f := ""
 	if s.FailAfter >= 0 {
-		f = fmt.Sprintf(",fail-after=%d", s.FailAfter)
+		f = fmt.Sprintf(",fail-after=%d:%s", s.FailAfter, s.failErr())
 		if s.FailWith {
 			f += "(with data)"
 		}
@@ -110,7 +121,7 @@ func (r *Reader) Read(p []byte) (int, error) {
 	if r.s.FailAfter >= 0 {
 		left := r.s.FailAfter - r.pos
 		if left <= 0 {
-			return 0, ErrScripted
+			return 0, r.s.failErr()
 		}
 		if want >= left {
 			if r.s.FailWith {
@@ -119,7 +130,7 @@ func (r *Reader) Read(p []byte) (int, error) {
 				}
 				r.pos += left
 				r.Consumed += left
-				return left, ErrScripted
+				return left, r.s.failErr()
 			}
 			want = left
 		}
